@@ -279,11 +279,12 @@ pub fn run_c12(a: &Args, rep: &mut Report) {
             flush(rep, &mut cases);
         }
     }
+    let par_only = a.variant == "par"; // the dedicated concurrent pass keeps its sequential part short
     // code-size sweep: straight-line programs of every length in a range, three instruction mixes
     // (3-, 4- and 7-byte x86 encodings), so that the emitted code size crosses every page boundary
     // residue (buffer sizing arithmetic)
     {
-        let max_n: usize = if q { 4200 } else { 20000 };
+        let max_n: usize = if par_only { 0 } else if q { 4200 } else { 20000 };
         let mut n = 1 + a.shard as usize;
         while n <= max_n {
             let mix = n % 3;
@@ -308,7 +309,7 @@ pub fn run_c12(a: &Args, rep: &mut Report) {
         flush(rep, &mut cases);
         // every residue of the emitted code size modulo the page size: 3a + 4b = 4200 + s
         let mut sres = a.shard as usize;
-        while sres < 4096 {
+        while sres < 4096 && !par_only {
             let total = 4200 + sres;
             let b = (0..3).find(|b| (total - 4 * b) % 3 == 0).unwrap();
             let na = (total - 4 * b) / 3;
@@ -412,7 +413,7 @@ pub fn run_c12(a: &Args, rep: &mut Report) {
         rep.add("opcode_dense_programs", nd);
     }
     // long programs (JIT up to the limit, Cranelift up to 20k/100k)
-    let lens: &[usize] = if q { &[4_000, 33_000, 70_000] } else { &[4_000, 20_000, 33_000, 70_000, 131_100, 500_000, 1_000_000] };
+    let lens: &[usize] = if par_only { &[] } else if q { &[4_000, 33_000, 70_000] } else { &[4_000, 20_000, 33_000, 70_000, 131_100, 500_000, 1_000_000] };
     for (i, len) in lens.iter().enumerate() {
         for v in 0..6u64 {
             if (i as u64 * 6 + v) % a.nshards != a.shard % a.nshards {
@@ -430,15 +431,18 @@ pub fn run_c12(a: &Args, rep: &mut Report) {
     if !cfg!(miri) && !par_cases.is_empty() && crate::mon_par::par_mult() > 0 {
         let big_cases: Vec<Case> = (0..40usize)
             .map(|k| {
-                let n = 600 + (k * 137 + a.shard as usize * 53) % 5400;
-                let mut v: Vec<Insn> = Vec::with_capacity(n + 2);
-                v.push(Insn::new(MOV64_IMM, 0, 0, 0, 1));
+                // 110..900 instructions with long encodings (division by a register: ~40 bytes of
+                // x86 each): one to nine pages of code, compiled in microseconds
+                let n = 110 + (k * 37 + a.shard as usize * 53) % 800;
+                let mut v: Vec<Insn> = Vec::with_capacity(n + 3);
+                v.push(Insn::new(MOV64_IMM, 0, 0, 0, 0x7fff_fff1));
+                v.push(Insn::new(MOV64_IMM, 6, 0, 0, 1 + (k % 3) as i32));
                 for j in 0..n {
                     v.push(match (j + k) % 4 {
-                        0 => Insn::new(ADD64_IMM, 0, 0, 0, 3),
-                        1 => Insn::new(MOV64_REG, 6, 0, 0, 0),
-                        2 => Insn::new(0xc7, 7, 0, 0, 1),
-                        _ => Insn::new(XOR64_REG, 0, 6, 0, 0),
+                        0 => Insn::new(0x3f, 0, 6, 0, 0), // div64 r0, r6
+                        1 => Insn::new(ADD64_IMM, 0, 0, 0, 0x1234_5601),
+                        2 => Insn::new(0x9f, 7, 6, 0, 0), // mod64 r7, r6
+                        _ => Insn::new(0x3c, 0, 6, 0, 0), // div32 r0, r6
                     });
                 }
                 v.push(Insn::new(EXIT, 0, 0, 0, 0));
@@ -476,7 +480,34 @@ pub fn run_c12(a: &Args, rep: &mut Report) {
             let (execs, bad) = crate::mon_par::par_same(&par_cases, f, 2);
             // a second session of multi-page programs only, many rounds: the threads spend all their
             // time acquiring, filling and releasing large code regions of different sizes
-            let (execs2, bad2) = crate::mon_par::par_same(&big_cases, |c| (f(c).0, 9u8), if q { 12 } else { 60 });
+            // (tight loop: the same VM is re-compiled 100 times per visit, so that the threads spend
+            // most of their time acquiring and releasing code regions, then the code is run once)
+            let tight = |c: &Case| -> (u8, u8) {
+                let r = sys::catch(|| -> Result<u8, String> {
+                    let mut vm = build_vm(c, Family::Plain)?;
+                    let mut bad = 0u8;
+                    for _ in 0..100 {
+                        #[cfg(not(any(feature = "std", feature = "stdlite")))]
+                        {
+                            let need = (c.prog.len() / 8 * 64 + 8192 + 4095) & !4095;
+                            let _ = vm.set_jit_exec_memory(crate::exec::exec_memory(need));
+                        }
+                        if vm.jit_compile().is_err() {
+                            bad = bad.saturating_add(1);
+                        }
+                    }
+                    let none = (std::ptr::null_mut(), 0);
+                    let v = unsafe { vm.exec_jit(none, none) }?;
+                    Ok(bad.saturating_add((v % 251) as u8))
+                });
+                match r {
+                    Ok(Ok(x)) => (0, x),
+                    Ok(Err(_)) => (1, 0),
+                    Err(_) => (2, 0),
+                }
+            };
+            let (execs2, bad2) = crate::mon_par::par_same(&big_cases, tight, if q { 3 } else { 12 });
+            let execs2 = execs2 * 100;
             let execs = execs + execs2;
             let nb = bad.len();
             let bad: Vec<(usize, String)> = bad.into_iter().chain(bad2.into_iter().map(|(i, d)| (par_cases.len() + i, d))).collect();
